@@ -104,6 +104,11 @@ def run_item(item):
             opts['--hyperlinks-file-link-format'] = rng.choice(['file://{path}', 'vscode://file/{path}:{line}', 'x://{host}/{path}#{line}'])
         if rng.random() < 0.5:
             opts['--hyperlinks-commit-link-format'] = 'https://example.com/c/{commit}'
+    if case['view'] == 'unified' and rng.random() < 0.3:
+        # line numbers with a format of their own (width, precision), next to hyperlinks if those are on
+        opts['--line-numbers'] = True
+        opts['--line-numbers-left-format'], opts['--line-numbers-right-format'] = rng.choice([('{nm:^4.4}⋮', '{np:^4.4}│'), ('{nm:>3.2}┊', '{np:>6.1}┊'),
+                                                                                              ('{nm:<5}', '{np:^8.3}|'), ('', '{np:.2}:')])
     if case['view'] in ('unified', 'sbs') and rng.random() < 0.25:
         opts['--max-line-length'] = rng.choice([30, 60, 150])
     if case['view'] == 'sbs' and rng.random() < 0.3:
